@@ -179,7 +179,8 @@ def setupTyped {n p m : Nat} (hn : 0 < n) (be : Backend) (pk : PrecKind) (st : S
   let one : Vec K n := Vec.const n 1
   let kkt := KKT.init be d1 info.rho info.delta one one one one
   { be, pk, st, data := d1, pre := pre1, kkt, w, info, kktInitState := true, setupDone := true,
-    refineOn := st.refAlways }
+    refineOn := st.refAlways,
+    hDisabled := match h with | some h => infMask cs h | none => Vector.replicate m false }
 
 /-- `unscale_results` -/
 def unscaleResults {n p m : Nat} (pk : PrecKind) (pre : Precond K n p m) (w : Work K n p m) : Work K n p m :=
@@ -290,7 +291,9 @@ def updateTyped {n p m : Nat} (sparse : Bool) (maskP : Array Bool) (s : Solver K
       else { d0 with P := upperOfMat P }
     | none => d0
   let d2 := match A with | some A => { d1 with AT := Mat.transpose A } | none => d1
-  let d3 := match G with | some G => { d2 with GT := Mat.transpose G } | none => d2
+  let d3 := match G with
+            | some G => { d2 with GT := if h.isSome then Mat.transpose G else rezeroRows s.hDisabled (Mat.transpose G) }
+            | none => d2
   let d4 := match c with | some c => { d3 with c := c } | none => d3
   let d5 := match b with | some b => { d4 with b := b } | none => d4
   let d6 := match h with
@@ -302,7 +305,8 @@ def updateTyped {n p m : Nat} (sparse : Bool) (maskP : Array Bool) (s : Solver K
   -- fix 4th of its kind in solver.hpp: a new scaling changes every block; the next solve rebuilds the scalings part
   let all := !reuse
   let kkt1 := KKT.updateData s.be sc.1 s.kkt (P.isSome || all) (A.isSome || all) (G.isSome || all)
-  { s with data := sc.1, pre := sc.2, kkt := kkt1, kktInitState := false }
+  { s with data := sc.1, pre := sc.2, kkt := kkt1, kktInitState := false,
+           hDisabled := match h with | some h => infMask cs h | none => s.hDisabled }
 
 def optMat {r c : Nat} (M : Option (RawMat K)) : Option (Mat K r c) := M.map fun M => M.toMat r c
 def optVec {k : Nat} (v : Option (RawVec K)) : Option (Vec K k) := v.map fun v => v.toVec k
